@@ -407,6 +407,8 @@ func (c *control) dirPercent(colon, at bool, params []any) {
 			n = tp
 		case slip.Integer:
 			n = int(tp.RealValue())
+		case nil:
+			// a parameter given as nil (by v) is an omitted one
 		default:
 			c.invalidDirParam(c.str, c.pos)
 		}
@@ -424,6 +426,8 @@ func (c *control) dirAmp(colon, at bool, params []any) {
 			n = tp
 		case slip.Integer:
 			n = int(tp.RealValue())
+		case nil:
+			// a parameter given as nil (by v) is an omitted one
 		default:
 			c.invalidDirParam(c.str, c.pos)
 		}
@@ -527,6 +531,8 @@ func (c *control) dirMove(colon, at bool, params []any) {
 		case slip.Integer:
 			n = int(tp.RealValue())
 			changed = true
+		case nil:
+			// a parameter given as nil (by v) is an omitted one
 		default:
 			c.invalidDirParam(c.str, c.pos)
 		}
@@ -1453,6 +1459,8 @@ func (c *control) dirTilde(colon, at bool, params []any) {
 			n = tp
 		case slip.Integer:
 			n = int(tp.RealValue())
+		case nil:
+			// a parameter given as nil (by v) is an omitted one
 		default:
 			c.invalidDir(c.str, c.pos)
 		}
@@ -1470,6 +1478,8 @@ func (c *control) dirCond(colon, at bool, params []any) {
 			n = tp
 		case slip.Integer:
 			n = int(tp.RealValue())
+		case nil:
+			// a parameter given as nil (by v) is an omitted one
 		default:
 			c.invalidDir(c.str, c.pos)
 		}
@@ -1694,6 +1704,8 @@ func (c *control) dirPage(colon, at bool, params []any) {
 			n = tp
 		case slip.Integer:
 			n = int(tp.RealValue())
+		case nil:
+			// a parameter given as nil (by v) is an omitted one
 		default:
 			c.invalidDir(c.str, c.pos)
 		}
